@@ -158,9 +158,7 @@ func (e *Engine) RunInit() error {
 		}
 	}
 	// freeze
-	for id, o := range st.heap {
-		e.root[id] = o
-	}
+	st.eachLocal(func(id int, o *Object) { e.root[id] = o })
 	e.initDone = true
 	return nil
 }
